@@ -113,9 +113,13 @@ func setRequestHeaderValue(r *http.Request, name string, val value.Value) {
 	}
 
 	if strings.EqualFold(name, "cookie") {
+		c := http.CreateCookie(key, val.String())
+		if c == nil {
+			// The value could not be represented in a Cookie header, e.g. it contains a double quote
+			return
+		}
 		// Replace the cookie which has the same name, AddCookie() only appends
 		removeCookieByName(r, key)
-		c := http.CreateCookie(key, val.String())
 		r.AddCookie(c)
 		return
 	}
